@@ -41,7 +41,7 @@ func userBlocks(deep bool) []block {
 	bs := []block{
 		b(F("id")), b(F("name")), b(FA("n", "name"), F("name")), b(F("age"), F("age")), b(F("score")), b(F("__typename")),
 		b(On("User", F("name"), F("age"))), bf("UF", Spread("UF")), bf("UF", Spread("UF"), Spread("UF"), F("id")),
-		b(F("best", F("id"))),
+		b(F("best", F("id"))), b(F("ack")),
 	}
 	if deep {
 		bs = append(bs,
@@ -207,7 +207,7 @@ func queriesFor(tier string) []*qgen.Query {
 	return qs
 }
 
-var modeFields = []string{"items", "friend", "score", "owner", "fav"}
+var modeFields = []string{"items", "friend", "score", "owner", "fav", "ack"}
 
 func modeSets(tier string) []gqlfix.Modes {
 	out := []gqlfix.Modes{{}}
